@@ -176,7 +176,7 @@ def write_replay(prop: str, failure: Failure, seed: int) -> Path:
     doc = {
         "property": prop,
         "signature": failure.signature,
-        "message": failure.message,
+        "message": failure.message[:20000],
         "seed": seed,
         "case": failure.replay,
     }
